@@ -527,6 +527,12 @@ def add_contributions(model, spec, rng=None, cia_tables=None):
         elif name == 'FlatMie':
             o = FlatMieContribution(**kw)
         elif name == 'LeeMie':
+            rep = kw.pop('radius_repr', None)
+            if rep == '0-d-array':
+                # the particle size as a 0-d numpy array (what h5py's ``ds[()]`` / ``np.loadtxt`` of one number deliver)
+                kw['lee_mie_radius'] = np.array(kw['lee_mie_radius'], dtype=float)
+            elif rep == 'one-element-array':
+                kw['lee_mie_radius'] = np.array([kw['lee_mie_radius']], dtype=float)
             o = LeeMieContribution(**kw)
         elif name == 'HydrogenIon':
             from taurex.contributions.hm import HydrogenIon
